@@ -100,7 +100,8 @@ def int1(a, n, h):
 
 def int2(a, b, na, nb, h):
     """integral over [-h, h] of the product of two polynomials: sum_{i+j even} a_i b_j * 2 h^(i+j+1) / (i+j+1)"""
-    return 'INT2_%d_%d(%s, %s)' % (na, nb, ', '.join([a % i for i in range(na)] + [b % j for j in range(nb)]), h)
+    f = lambda fmt, i: fmt % ((i,) * fmt.count('%d'))      # (a format string may name the index more than once)
+    return 'INT2_%d_%d(%s, %s)' % (na, nb, ', '.join([f(a, i) for i in range(na)] + [f(b, j) for j in range(nb)]), h)
 
 
 def unroll(fmt, n):
